@@ -464,8 +464,8 @@ func runRolloutWithCut(scn *Scn, f Factory, edits []int, midSyncs int, ogStyle i
 	}
 	o := env.outcome()
 	o.ReqCounts, o.Mixed, o.RevReqs = out.ReqCounts, out.Mixed, out.RevReqs
-	if len(env.CacheViolations) > 0 {
-		return o, vs.Violf("C17/cache-mutated", "shared cache objects changed during a sync: %v", env.CacheViolations)
+	if v := env.SharedStateViolation(); v != nil {
+		return o, v
 	}
 	return o, nil
 }
